@@ -509,7 +509,7 @@ func runC16(t *testing.T, sched simrt.Schedule, prog c16Prog) ([]Violation, RunS
 						out = append(out, vio("C16", "refused-upload-left-bytes", "%s: upload answered %d changed the upload directory: %s -> %s", where, code, preDir, d))
 					}
 					// (key or credentials carried inside an oversize body cannot be read: then 403/401 is as good)
-					if tooLarge && keyOK && authOK && a.Key != 2 && a.Auth != 3 && (method == "POST" || method == "PUT") && code != 413 {
+					if tooLarge && keyOK && authOK && !unsure && a.Key != 2 && a.Auth != 3 && (method == "POST" || method == "PUT") && code != 413 {
 						out = append(out, vio("C16", "oversize-upload-code", "%s: upload with a body of %d bytes (limit %d) answered %d, expected 413", where, buf.Len(), globals.maxFileUploadSize, code))
 					}
 					continue
